@@ -23,8 +23,11 @@ CONSTANTS
     NTrees, NFlags, \* 0: every tree / flag set; n > 0: a random sample of that many
     SizeFromLstat,  \* FALSE: after following a link the driver works with the TARGET's
                     \* attributes (the code); TRUE: it keeps the link's own (sensitivity)
-    SkipErrors      \* FALSE: an entry that fails is reported (the code); TRUE: dropped
+    SkipErrors,     \* FALSE: an entry that fails is reported (the code); TRUE: dropped
                     \* silently (sensitivity)
+    SkipEmpty       \* FALSE: an empty source file creates / truncates its destination like
+                    \* any other (the code); TRUE: with a progress handler set it is only
+                    \* reported and the destination is left alone (sensitivity)
 
 (* ---- source trees: nodes at fixed paths below the source directory ---- *)
 Paths == {"f", "d", "d/g", "d/k", "l", "m"}
@@ -69,14 +72,16 @@ Trees ==
 Modes == {"dir_new", "dir_into", "glob", "one"}
 \* what exists where the entries f, d, l will land
 \*  big_f : a larger file at f     (must be truncated)
+\*  small_f / same_f: a shorter file / a file of the source's length with other bytes
 \*  dir_f : a directory at f       (file over dir: that entry fails)
 \*  file_d: a file at d            (dir over file: that entry fails)
 \*  ent_l : a file at l            (link over file fails; file over file is replaced)
 \*  base  : only the directory the entries land in exists already
-Pres == {"none", "base", "big_f", "dir_f", "file_d", "ent_l"}
+Pres == {"none", "base", "big_f", "small_f", "same_f", "dir_f", "file_d", "ent_l"}
 Flags ==
     {fl \in [op : {"get", "put", "copy"}, mode : Modes, recurse : BOOLEAN,
-             follow : BOOLEAN, preserve : BOOLEAN, handler : BOOLEAN, pre : Pres] :
+             follow : BOOLEAN, preserve : BOOLEAN, handler : BOOLEAN, progress : BOOLEAN,
+             pre : Pres] :
         /\ fl.mode = "dir_new" => fl.pre = "none"
         /\ fl.mode \in {"glob", "one"} => fl.pre # "base"}
 
@@ -113,7 +118,7 @@ Stat(p) == IF p = "" THEN [t |-> "dir", size |-> 0, path |-> ""] ELSE StatN(p, 3
 (* ---- the destination before the call ---- *)
 \* kind of what exists at the place where source entry e (a top-level name) lands
 PreKind(e) ==
-    CASE fl.pre = "big_f" /\ e = "f" -> "file"
+    CASE fl.pre \in {"big_f", "small_f", "same_f"} /\ e = "f" -> "file"
       [] fl.pre = "dir_f" /\ e = "f" -> "dir"
       [] fl.pre = "file_d" /\ e = "d" -> "file"
       [] fl.pre = "ent_l" /\ e = "l" -> "file"
@@ -152,6 +157,7 @@ Walk(ap, dp, a, top) ==
                              txt |-> src[b.path].txt]})
               [] b.t = "file" ->
                    IF pre = "dir" THEN Err(ap)                    \* open a directory for writing
+                   ELSE IF SkipEmpty /\ fl.progress /\ b.size = 0 THEN Ok({})
                    ELSE Ok({[p |-> dp, t |-> "file", from |-> Stat(a.path).path,
                              n |-> b.size, txt |-> ""]})
               [] OTHER -> Err(ap)
